@@ -503,6 +503,92 @@ theorem C08_stoich_sign_computed (env : VEnv) (d d' : SDoc) (r r' : SRxn) (x sx 
       congr 1
       grind
 
+/-- A whole `rxn.stoichiometry` (keys `[A-Za-z][A-Za-z0-9_]*`, pairwise distinct as dict keys are): after
+    `exportCoefs` every species has, under the SBML reading, exactly the coefficient the model gives it —
+    the number itself, or plus the value of the rule `<species>ref` for a computed coefficient — and
+    species outside the dict keep the net coefficient they had.  (One reaction; across reactions the
+    rule names can clash: finding F-C08-7.) -/
+theorem C08_reaction_stoich (env : VEnv) :
+    ∀ (l : List (String × PyCoef)) (d d' : SDoc) (r r' : SRxn),
+      exportCoefs (d, r) l = .ok (d', r') →
+      (∀ kv ∈ l, isPlainName kv.1 = true) → (l.map (·.1)).Nodup →
+      (∀ kv ∈ l, ∀ s ∈ refsOf r, s.species ≠ kv.1) →
+      (∀ kv ∈ l, netCoef env d' r' kv.1 = coefVal env kv) ∧
+      (∀ z, (∀ kv ∈ l, kv.1 ≠ z) →
+        (∀ kv ∈ l, ∀ s ∈ refsOf r, s.species = z → s.id ≠ some (kv.1 ++ "ref")) →
+        netCoef env d' r' z = netCoef env d r z) := by
+  intro l
+  induction l with
+  | nil =>
+    intro d d' r r' h _ _ _
+    simp only [exportCoefs, Except.ok.injEq, Prod.mk.injEq] at h
+    obtain ⟨rfl, rfl⟩ := h
+    exact ⟨fun kv hkv => (by cases hkv), fun z _ _ => rfl⟩
+  | cons kv rest ih =>
+    intro d d' r r' h hplain hnodup hfresh
+    obtain ⟨x, c⟩ := kv
+    simp only [exportCoefs] at h
+    obtain ⟨⟨d1, r1⟩, h1, h2⟩ := except_bind_ok h
+    have hx : isPlainName x = true := hplain (x, c) List.mem_cons_self
+    have hplain' : ∀ kv ∈ rest, isPlainName kv.1 = true := fun kv hk => hplain kv (List.mem_cons_of_mem _ hk)
+    simp only [List.map_cons, List.nodup_cons] at hnodup
+    obtain ⟨hxnot, hnodup'⟩ := hnodup
+    have hxne : ∀ kv ∈ rest, kv.1 ≠ x := by
+      intro kv hk e
+      exact hxnot (List.mem_map.mpr ⟨kv, hk, e⟩)
+    have hfx : ∀ s ∈ refsOf r, s.species ≠ x := hfresh (x, c) List.mem_cons_self
+    -- references of r1: those of r plus one for x whose id is none or x ++ "ref"
+    have hrefs : ∀ s ∈ refsOf r1, s ∈ refsOf r ∨ (s.species = x ∧ (s.id = none ∨ s.id = some (x ++ "ref"))) := by
+      intro s hs
+      rcases exportCoef_shape hx h1 with ⟨q, _, _, hr1⟩ | ⟨f, m, _, _, _, hr1⟩
+      · rw [hr1] at hs
+        rcases (refsOf_addRef _ _ _ s).mp hs with h | h
+        · exact .inl h
+        · exact .inr (by rw [h]; exact ⟨rfl, .inl rfl⟩)
+      · rw [hr1] at hs
+        rcases (refsOf_addRef _ _ _ s).mp hs with h | h
+        · exact .inl h
+        · exact .inr (by rw [h]; exact ⟨rfl, .inr rfl⟩)
+    have hfresh' : ∀ kv ∈ rest, ∀ s ∈ refsOf r1, s.species ≠ kv.1 := by
+      intro kv hk s hs
+      rcases hrefs s hs with h | ⟨h, _⟩
+      · exact hfresh kv (List.mem_cons_of_mem _ hk) s h
+      · rw [h]; exact fun e => hxne kv hk e.symm
+    obtain ⟨iha, ihb⟩ := ih d1 d' r1 r' h2 hplain' hnodup' hfresh'
+    -- the entry itself, right after it has been written
+    have hhead1 : netCoef env d1 r1 x = coefVal env (x, c) := by
+      have hfr : ∀ s ∈ r.reactants ++ r.products, s.species ≠ x := hfx
+      cases c with
+      | num q => exact (C08_stoich_sign_numeric env d d1 r r1 x x q h1 (escapeId_plain "CPD" hx) hfr).2
+      | computed f =>
+        have hxr := isPlainName_append_ref hx
+        exact (C08_stoich_sign_computed env d d1 r r1 x x (x ++ "ref") f h1 (escapeId_plain "CPD" hx)
+          (escapeId_plain "CPD" hxr) (escapeId_plain "AR" hxr) hfr).2
+    refine ⟨?_, ?_⟩
+    · intro kv hk
+      rcases List.mem_cons.mp hk with rfl | hk'
+      · -- later entries do not disturb it
+        have := ihb x hxne (by
+          intro kv' hk' s hs hsx
+          rcases hrefs s hs with h | ⟨_, hid | hid⟩
+          · exact absurd hsx (hfx s h)
+          · rw [hid]; exact fun e => by cases e
+          · rw [hid]
+            intro e
+            exact hxne kv' hk' (append_ref_inj (Option.some.inj e)).symm)
+        rw [this]
+        exact hhead1
+      · exact iha kv hk'
+    · intro z hz hid
+      have hxz : x ≠ z := hz (x, c) List.mem_cons_self
+      have h1z := netCoef_frame env hx h1 hxz (hid (x, c) List.mem_cons_self)
+      have := ihb z (fun kv hk => hz kv (List.mem_cons_of_mem _ hk)) (by
+        intro kv' hk' s hs hsz
+        rcases hrefs s hs with h | ⟨h, _⟩
+        · exact hid kv' (List.mem_cons_of_mem _ hk') s h hsz
+        · exact absurd (h.symm.trans hsz) hxz)
+      rw [this, h1z]
+
 /-! ### names (finding F-C08-5: known) -/
 
 /-- Full statement: every component name comes back under its name (write the id, read it through the
